@@ -73,9 +73,11 @@ def group_on(c, g, t):
     names, tags = set(), set()
     if en != "<all>":
         for k in en.split(","):
+            k = k.strip()   # entries are trimmed first: " #tag" is the tag, as in the checker lists (C06)
             (tags if k.startswith("#") else names).add(k.lstrip("#"))
     dn, dt = set(), set()
     for k in c["disable"].split(","):
+        k = k.strip()
         (dt if k.startswith("#") else dn).add(k.lstrip("#"))
     on = en == "<all>" or g in names or bool(set(t) & tags)
     if on and (g in dn or set(t) & dt):
@@ -128,9 +130,11 @@ def expectation(c):
     names, tags = set(), set()
     if en != "<all>":
         for k in en.split(","):
+            k = k.strip()   # entries are trimmed first: " #tag" is the tag, as in the checker lists (C06)
             (tags if k.startswith("#") else names).add(k.lstrip("#"))
     dn, dt = set(), set()
     for k in c["disable"].split(","):
+        k = k.strip()
         (dt if k.startswith("#") else dn).add(k.lstrip("#"))
     surv = []
     for f in loaded:
@@ -156,12 +160,14 @@ def gen_cases(tier):
     rules += ["rules/valid*.go", "rules/nomatch*.go", "rules/validA.go,rules/nomatch*.go", "rules/*.go", "rules/valid?.go,rules/syntax.go", "", "rules/missing.go", "rules/validB.go,rules/missing.go"]
     failons = [("", False), ("", True), ("dsl", False), ("import", False), ("all", False), ("dsl,import", False), ("zzz", False), ("dsl,zzz", False), ("import", True), ("all,dsl", False)]
     ends = [("<all>", ""), ("<all>", "grpA1"), ("<all>", "#myTag"), ("grpA1,grpB1", ""), ("#experimental", ""), ("#myTag,#experimental", ""), ("#style", "#experimental"),
-            ("grpA2", ""), ("grpA2,#experimental", ""), ("<all>", "#experimental"), ("nosuchgroup", ""), ("#diagnostic,grpC1", "grpB1")]
+            ("grpA2", ""), ("grpA2,#experimental", ""), ("<all>", "#experimental"), ("nosuchgroup", ""), ("#diagnostic,grpC1", "grpB1"),
+            ("grpA1, #myTag", ""), ("<all>", " #myTag"), (" #myTag , grpB1 ", " grpA1"), ("<all>", "grpB1, #experimental")]
+    padded = ends[-4:]
     cases = []
     cid = 0
     for ru in rules:
         for (fo, legacy) in (failons if tier == "thorough" else r.sample(failons, 4) + [("", False)]):
-            for (en, dis) in (ends if tier == "thorough" else r.sample(ends, 2) + [("<all>", "")]):
+            for (en, dis) in (ends if tier == "thorough" else r.sample(ends, 2) + [("<all>", ""), padded[cid % 4]]):
                 cases.append({"id": cid, "rules": ru, "failOn": fo, "failOnError": legacy, "enable": en, "disable": dis})
                 cid += 1
     return cases
